@@ -1,4 +1,63 @@
+(* C03 — confidence fields obey the documented arithmetic contract. *)
 From Coq Require Import ZArith List Bool.
-From CTM Require Import Model.Vote.
-Theorem c03_placeholder : True. Proof. exact I. Qed.
-Print Assumptions c03_placeholder.
+From CTM Require Import Base.Sx Model.Vote Model.Election Proofs.VoteP Proofs.VoteMainP Proofs.ConfidenceP.
+Import ListNotations.
+Open Scope Z_scope.
+
+(* the bootstrapping probability is a whole number of votes in (0, iterations] *)
+Theorem c03_probability_range : forall kids vf n_assign w wv rs iters,
+  check_choice kids vf n_assign w wv rs = true ->
+  nsum (map vf kids) = iters -> (1 <= iters)%nat -> (1 <= wv <= iters)%nat.
+Proof. intros kids vf na w wv rs iters H1 H2. exact (prob_range kids vf na w wv rs iters H1 H2). Qed.
+Print Assumptions c03_probability_range.
+
+(* runner-up lists: no longer than requested, distinct siblings other than the winner,
+   strictly positive votes none larger than the winner's, non-increasing *)
+Theorem c03_runner_up_shape : forall kids vf n_assign w wv rs,
+  check_choice kids vf n_assign w wv rs = true ->
+  (length rs <= n_assign - 1)%nat /\
+  NoDup (map fst rs) /\ ~ In w (map fst rs) /\
+  (forall r, In r rs -> In (fst r) kids /\ (0 < snd r <= wv)%nat /\ vf (fst r) = snd r) /\
+  sorted_desc (map snd rs) = true.
+Proof. exact runner_shape. Qed.
+Print Assumptions c03_runner_up_shape.
+
+(* winner plus runners-up sum to at most the iteration count (probabilities sum to <= 1) *)
+Theorem c03_sum_at_most_one : forall kids vf n_assign w wv rs iters,
+  check_choice kids vf n_assign w wv rs = true ->
+  nsum (map vf kids) = iters -> (wv + nsum (map snd rs) <= iters)%nat.
+Proof. intros kids vf na w wv rs iters H1 H2. exact (sum_at_most_one kids vf na w wv rs iters H1 H2). Qed.
+Print Assumptions c03_sum_at_most_one.
+
+(* correlations lie in [-1,1]: covariance squared is at most the product of the variances *)
+Theorem c03_corr_range : forall q r, length q = length r ->
+  ccov q r * ccov q r <= ccov q q * ccov r r.
+Proof. exact corr_in_range. Qed.
+Print Assumptions c03_corr_range.
+
+(* the aggregate probability is the running product of the per-level probabilities, and the
+   last pass changes nothing else *)
+Theorem c03_aggregate_is_running_product : forall acc rs,
+  map agg (running acc rs) = products acc (map prob rs).
+Proof. exact running_is_product. Qed.
+Print Assumptions c03_aggregate_is_running_product.
+
+(* a level where no vote was held (single child) inherits the correlation of the nearest level
+   above where one was held (1 at the top of the taxonomy); everything else is untouched *)
+Theorem c03_single_child_correlation : forall above row rs,
+  inherit above row = Ok rs ->
+  exists recs, row = map Some recs /\
+    map corr rs = map Some (inherited (match above with Some a => a | None => one end) (map corr recs)) /\
+    map asg rs = map asg recs /\ map prob rs = map prob recs /\ map runners rs = map runners recs.
+Proof. exact inherit_corr. Qed.
+Print Assumptions c03_single_child_correlation.
+
+Theorem c03_single_child_record : forall c, asg (trivial_rec c) = c /\ prob (trivial_rec c) = one /\
+  corr (trivial_rec c) = None /\ runners (trivial_rec c) = [].
+Proof. exact trivial_rec_spec. Qed.
+Print Assumptions c03_single_child_record.
+
+Example c03_example :
+  check_choice [1; 2; 3] (fun c => if (c =? 1)%Z then 5%nat else if (c =? 2)%Z then 3%nat else 2%nat) 3 1 5 [(2, 3%nat); (3, 2%nat)] = true /\
+  check_choice [1; 2; 3] (fun c => if (c =? 1)%Z then 5%nat else if (c =? 2)%Z then 3%nat else 2%nat) 2 1 5 [(3, 2%nat)] = false.
+Proof. vm_compute. split; reflexivity. Qed.
